@@ -149,6 +149,17 @@ Definition cph_of_id_ok (id name : tv) : bool :=
   | _, _ => false
   end.
 
+(* the constructors, and the names [kwalg_of_name] / [cipher_of_name] accept: the canonical name
+   of every constructor plus the two documented aliases (each checked to be accepted) *)
+Definition all_ciphers : list cipher := [AESGCM; ChaChaPoly].
+Definition all_kwalgs : list kwalg := [A256KW; A128CBC; A192CBC; A256CBC; RSAOAEP256].
+Definition cipher_names : list (list N) :=
+  filter (fun n => match cipher_of_name n with Some _ => true | None => false end)
+         (map cipher_name all_ciphers).
+Definition kwalg_names : list (list N) :=
+  filter (fun n => match kwalg_of_name n with Some _ => true | None => false end)
+         (map kwalg_name all_kwalgs ++ [str "AES"; str "RSA"])%list.
+
 Definition default_cipher_ok (s : string) : bool :=
   match encrypt_manifest probe_opts [] [] with
   | Some m => eqb_listN (cipher_name (m_cph m)) (bytes_of_string s)
@@ -202,12 +213,19 @@ Definition table : list entry :=
     ("enc.nonceForSegment.size", eqv (tnat (List.length (nonce_for_segment [] 0%N false))));
     ("enc.nonceForSegment.counter", nonce_counter_ok);
     ("enc.nonceForSegment.lastFlag", nonce_flag_ok);
-    ("enc.Cipher.Validate", each_pair 2 cph_validate_ok);
-    ("enc.Cipher.ID", each_pair 2 cph_id_ok);
-    ("enc.NewCipherFromID", each_pair 2 cph_of_id_ok);
-    ("enc.KeyAlgorithm.Validate", each_pair 7 kw_validate_ok);
-    ("enc.KeyAlgorithm.ID", each_pair 7 kw_id_ok);
-    ("enc.NewKeyAlgorithmFromID", each_pair 5 kw_of_id_ok);
+    (* names, ids and aliases: one item per case label; [#] = how many the model knows *)
+    ("enc.Cipher.Validate[]", on_pair cph_validate_ok);
+    ("enc.Cipher.Validate[#]", eqv (tnat (List.length cipher_names)));
+    ("enc.Cipher.ID[]", on_pair cph_id_ok);
+    ("enc.Cipher.ID[#]", eqv (tnat (List.length cipher_names)));
+    ("enc.NewCipherFromID[]", on_pair cph_of_id_ok);
+    ("enc.NewCipherFromID[#]", eqv (tnat (List.length all_ciphers)));
+    ("enc.KeyAlgorithm.Validate[]", on_pair kw_validate_ok);
+    ("enc.KeyAlgorithm.Validate[#]", eqv (tnat (List.length kwalg_names)));
+    ("enc.KeyAlgorithm.ID[]", on_pair kw_id_ok);
+    ("enc.KeyAlgorithm.ID[#]", eqv (tnat (List.length kwalg_names)));
+    ("enc.NewKeyAlgorithmFromID[]", on_pair kw_of_id_ok);
+    ("enc.NewKeyAlgorithmFromID[#]", eqv (tnat (List.length all_kwalgs)));
     ("enc.Manifest.json", json_tags_ok) ].
 
 Definition run_cases := run_tab table.
